@@ -36,7 +36,8 @@ CLAIMS = {
               "mutation in PartiallySignedTransaction::merge is dominated by the unique-id comparison with a UniqueIdMismatch "
               "error edge and sub-merge errors propagate, and a predicate-abstraction walk of the xpub key-source branch over the "
               "seven classes of key-source pairs yields the documented keep/insert/conflict table without a panic; a first-present-wins "
-              "assignment to self.X may only be guarded by a test on X itself. Conflicting "
+              "assignment to self.X may only be guarded by a test on X itself, and a call that can empty a field of self (take, replace, "
+              "clear, ...) must be followed by an assignment to that field on every path. Conflicting "
               "values under one map key are outside the property's quantifier."),
         technique="resolved write-effect coverage with data dependence + dominance of the id gate + predicate-abstraction decision table",
         design_ref="§4 C14"),
@@ -66,7 +67,8 @@ CLAIMS = {
     "C13": dict(
         category="other",
         text=("Decides C13 by a purity argument checked on the code: every use of all-prevouts data in the taproot algorithm is "
-              "dominated by the !ANYONECANPAY edge (so Prevouts::One suffices under ANYONECANPAY and is an error otherwise), the "
+              "dominated by the !ANYONECANPAY edge and Prevouts::get_all is evaluated on every such query whatever the cache holds (so "
+              "Prevouts::One suffices under ANYONECANPAY and is an error otherwise, independently of earlier queries), the "
               "transitive field read-set of the three cache builders is disjoint from the only place the API hands out mutably "
               "(the script witness via witness_mut), no other public method returns &mut, the caches are written only by new() and by "
               "get_or_insert_with in their accessor, and the Prevouts decision tables are as specified. Hence every cached value is "
@@ -127,7 +129,7 @@ CLAIMS = {
         category="other",
         text=("Structural agreement between the size formulas and the encoders: every encoded_length table matches the byte count of the "
               "corresponding encoder arm (1/9/33/33 etc.), TxOut/TxIn/Transaction size formulas have exactly one addend per field the "
-              "encoder writes (flag-gated fields under the same predicate), the weight scale and discount constants are those of Elements, "
+              "encoder writes (flag-gated fields under the same predicate, checked on the formula and on the encoder), the weight scale and discount constants are those of Elements, "
               "and block size/weight sum header + varint + per-transaction values. Numeric equality on every transaction is implied "
               "by, but not separately evaluated beyond, these term-level agreements."),
         technique="sibling agreement between size formula terms and encoder field sequences over MIR provenance terms",
@@ -148,7 +150,7 @@ CLAIMS = {
         category="other",
         text=("Decided by substitution: FullParams::calculate_root and Params::calculate_root are the same fast-merkle expression in "
               "(H(signblockscript), H(limit), extra root) with identical leaf order and hash helper; extra_root has the required three-leaf "
-              "form for full parameters, returns the stored elided root for compact and zero for null; into_compact copies script and limit "
+              "form for full parameters over canonically length-prefixed leaves (compact-size boundary table of the writer), returns the stored elided root for compact and zero for null; into_compact copies script and limit "
               "and stores extra_root(); null parameters return the zero root first; the header root is fmr([current, proposed]). Hence "
               "root(compact(p)) = root(p) for every p. Collision resistance of the hash is outside the claim."),
         technique="sibling agreement of provenance terms + exhaustive variant decision tables",
@@ -172,7 +174,7 @@ CLAIMS = {
               "equal the keys the reader recognises; hand-written struct readers map key -> identifier -> accumulator -> constructed field as "
               "the identity on field names; variant selection by present keys (ExtData, Params) maps each variant's written key set back to that "
               "variant (exhaustive table over presence patterns); confidential Value/Asset/Nonce tag tables, payload transforms and declared "
-              "sequence lengths agree; every paired (de)serializer agrees on human-readable polarity and data-model shape; sighash string tables "
+              "sequence lengths agree; every paired (de)serializer agrees on human-readable polarity and data-model shape, derived enums are externally tagged; sighash string tables "
               "are mutually inverse bijections and PsbtSighashType composes them with matching numeric tables; reversed-hex Display matches "
               "FromStr's reverse; OutPoint prefix literal length equals the parser's slice offset; PSET text = base64 over the consensus codec "
               "both ways. Value-level equality after a round trip is not evaluated. Found F20 (fixed) and F21 (known finding)."),
@@ -211,7 +213,7 @@ CLAIMS = {
               "lengths) are distinct and non-zero for blech32 and blech32m, so no one- or two-character corruption of the data part maps a "
               "codeword to a codeword; no weight<=2 pattern bridges the two residues (version-character changes); the constants equal the "
               "Elements reference and are internally consistent; and the decoder reaches Ok only through the residue comparison over the HRP "
-              "and every data character; the mixed-case test covers every letter of the string, HRP included, so re-casing HRP letters is "
+              "and every data character, on the caller's string unmodified (no case folding in front of the decoders); the mixed-case test covers every letter of the string, HRP included, so re-casing HRP letters is "
               "rejected. The rest of the human-readable-part clause (replacing HRP characters by other characters) is NOT claimed: "
               "rejection there is probabilistic."),
         technique="algebraic distance computation on compiler-evaluated constants + must-pass-through of the residue check",
